@@ -81,6 +81,14 @@ class Driver:
         self.changed_since_read = True
         self.invariant()
 
+    def op_reseed(self, seed):
+        """the instance under test is given a seed again; the shadow is a *fresh* environment with that seed"""
+        self.nops += 1
+        self.E.set_seed(seed)
+        self.T = configs.build(self.cfg, seed)
+        self.reseeds = getattr(self, 'reseeds', 0) + 1
+        self.op_reset()
+
     def op_step(self, i):
         self.nops += 1
         a = self.E.action_space.int_to_action(i % self.E.action_space.num_actions)
@@ -116,8 +124,8 @@ class Driver:
                         if len(od['grid']) == len(ed['grid']) and od['grid'][i][j] != ed['grid'][i][j]]
                 self.fail(f'observation does not belong to the current state (read {k + 1} of {n}, after {self.nops} ops): differing cells (cell, got, expected) {diff[:4]}, '
                           f'agents {od["agent"]} vs {ed["agent"]}', 'stale_observation')
-            if self.last_obs_obj is not None and o is not self.last_obs_obj:
-                self.fail('repeated reads of the observation of one state returned different objects (recomputed)', 'recomputed')
+            # (object identity of repeated reads is not demanded: a recomputation is observable through the twin's generator
+            #  under a stochastic observation function, which is how "at most once per state" is decided)
             self.last_obs_obj = o
             if self.reads_this_state and self.stochastic_obs:
                 self.repeated_stochastic += 1
@@ -130,8 +138,8 @@ class Driver:
     def op_state(self):
         self.nops += 1
         a, b = self.E.state, self.E.state
-        if a is not b:
-            self.fail('two reads of the state returned different objects', 'state_read')
+        if objs.canon_state(a) != objs.canon_state(b):
+            self.fail('two reads of the state differ', 'state_read')
         self.invariant()
 
     def op_outer_state(self):
@@ -189,6 +197,8 @@ class Driver:
             cl.append('stochastic_obs')
         if getattr(self, 'swaps', 0):
             cl.append('representation_swapped')
+        if getattr(self, 'reseeds', 0):
+            cl.append('reseeded')
         self.ctx.ev.case(None, nt=(len(cl) > 1 + self.stochastic_obs) or self.repeated_stochastic > 0, classes=cl,
                          key=getattr(self, 'log', None) or [self.cfg, self.nops],
                          sample={'op_log (first 40)': getattr(self, 'log', [])[:40], 'cfg': self.cfg, 'ops': self.nops, 'mid_resets': self.mid_resets, 'repeated_stochastic_reads': self.repeated_stochastic})
@@ -239,6 +249,11 @@ def machine(tier, ctx, last):
             self.op('outer_obs')
 
         @started
+        @rule(seed=st.integers(0, 2**32 - 1))
+        def reseed(self, seed):
+            self.op('reseed', seed)
+
+        @started
         @rule(name=st.sampled_from(['default', 'no-overlap', 'compact']))
         def swap_rep(self, name):
             self.op('swap_rep', name)
@@ -254,5 +269,5 @@ CHECKS = [
     Check('shadow_machine', oracle, machine=machine, examples={'quick': 120, 'thorough': 400}, steps={'quick': 40, 'thorough': 60},
           shards={'quick': 8, 'thorough': 16},
           rule='rule-based machine (reset, step, 1-3 observation reads, state read, outer state / observation reads) on perturbed shipped configurations vs. a functionally driven twin with the same seed',
-          required=['read_before_and_after_change', 'mid_episode_reset', 'repeated_reads_stochastic', 'representation_swapped']),
+          required=['read_before_and_after_change', 'mid_episode_reset', 'repeated_reads_stochastic', 'representation_swapped', 'reseeded']),
 ]
